@@ -374,7 +374,17 @@ def bracket_instance(id, lo_term, target, hi_term, params=None, meta=None):
 # ============================================================================================ metamorphic instances
 
 def _q(fr):
-    return Const(Fraction(fr)).coq()
+    """rational constant for the metamorphic lemma texts; a dyadic with a long exponent is printed as m * powerRZ 2 e
+    (Interval evaluates `IZR (2^16942)` through a 16942-bit integer -- measured 74 s -- but powerRZ in floating point)"""
+    fr = Fraction(fr)
+    n, d = fr.numerator, fr.denominator
+    if n != 0 and d & (d - 1) == 0:
+        tz = (abs(n) & -abs(n)).bit_length() - 1
+        e = tz if d == 1 else -(d.bit_length() - 1)
+        if abs(e) >= 256:
+            m = n >> tz if d == 1 else n
+            return "(IZR %s * powerRZ 2 (%d)%%Z)" % (zlit(m), e)
+    return Const(fr).coq()
 
 
 def meta_gamma_rec(id, x, y1, y2, eps, p, meta=None):
@@ -657,11 +667,11 @@ def _two_phase(orig):
         if len(insts) < 8:
             return orig(insts, tactic_params=tactic_params, jobs=jobs, timeout=timeout, tag=tag, clean=clean)
         t0 = time.time()
-        nh = max(1, min(len(heavy), max(1, jobs - 4)))
+        nh = max(1, min(len(heavy), jobs))
         hg = [heavy[k::nh] for k in range(nh)] if heavy else []
-        nc = max(1, min(max(2, jobs // 2), (len(cheap) + 4) // 5)) if cheap else 0
+        nc = max(1, min(jobs, (len(cheap) + 3) // 4)) if cheap else 0
         cg = [cheap[k::nc] for k in range(nc)] if cheap else []
-        groups = [g for g in hg + cg if g]
+        groups = [g for g in cg + hg if g]              # cheap groups get the first threads
 
         def one(arg):
             k, g = arg
